@@ -201,6 +201,9 @@ func Runs[T any](s []T, same func(a, b T) bool) [][]T {
 	var runs [][]T
 	start := 0
 	end := 0
+	if len(s) > 0 {
+		end = 1
+	}
 	for i := 1; i < len(s); i++ {
 		if same(s[i-1], s[i]) {
 			end = i + 1
